@@ -45,6 +45,8 @@ def run(tier, seed, replay=None):
                                 {"a": "Deq"}, {"a": "Deq"}, {"a": "TargetRecv"}, {"a": "TargetRecv"}, {"a": "TargetRecv"}, {"a": "TargetRecv"}, {"a": "TargetRecv"},
                                 {"a": "TargetRecv"}, {"a": "TargetRecv"}, {"a": "Crash", "off": 2, "db": 1}, {"a": "SrcEmit", "item": {"t": "w", "d": -1, "id": 3}}, {"a": "Parse"}]]},
         }
+        sub["offsets-badauth"] = {"seed": seed, "start": 1000, "commands": 5, "idles": [], "idle_ms": 100, "drops": [], "drop_skew": 0, "frags": [], "quiet_ms": 1500,
+                                  "trace": sc.path("sub-offsets2.ndjson"), "budget_ms": 4000, "auth_type": "adminauth"}
         sub["rump"] = {"seed": seed, "trace": sc.path("sub-rump.ndjson"), "dir": sc.dir, "src_pw": "src-SECRET-pw", "tgt_pw": "tgt-SECRET-pw", "cases": [
             {"id": 1, "seed": seed, "pre": [{"db": 1, "name": "BIG"}],
              "cfg": {"scan_key_number": 2, "big_threshold": 60, "key_exists": "rewrite", "tdb": -1, "fdb_white": [], "fdb_black": [], "fkey_white": [], "fkey_black": ["z"],
